@@ -618,6 +618,48 @@ pub fn run(tier: Tier, seed: u64, out: &mut dyn Write) {
         }
     }
 
+    // ---- 6b. names that carry their own hash: characters 3..6 of the 8.3 base spell the name's 16-bit hash, so an
+    //          existing alias `AB12CD~n` matches BOTH candidate forms of the generator (6-character prefix + `~n`, and
+    //          2 characters + hash + `~n`) - the boundary between the two collision bitmaps of `add_existing`
+    let n_tails = tier.pick(8usize, 24usize);
+    let mut self_hash = 0usize;
+    for t in 0..n_tails {
+        let p0 = (b'A' + rng.below(26) as u8) as char;
+        let p1 = (b'A' + rng.below(26) as u8) as char;
+        let tail = rand_from(&mut rng, LOWER, 1 + t % 5);
+        for h in 0..=0xFFFFu32 {
+            let name = format!("{}{}{:04X}{}.txt", p0, p1, h, tail);
+            let hit = match catch(|| short_name_gen_new(&name)) {
+                Some((chk, _, _, blen, sn)) => u32::from(chk) == h && blen >= 6 && sn[2..6] == *format!("{:04X}", h).as_bytes(),
+                None => false,
+            };
+            if !hit {
+                continue;
+            }
+            self_hash += 1;
+            emit_gen_new(out, &name);
+            let sn = short_name_gen_new(&name).4;
+            for k in [0usize, 1, 3, 4, 5, 8, 9] {
+                let mut pop: Vec<Sfn> = Vec::new();
+                for n in 1..=k {
+                    let mut e = [b' '; 11];
+                    e[..6].copy_from_slice(&sn[..6]);
+                    e[6] = b'~';
+                    e[7] = b'0' + n as u8;
+                    e[8..].copy_from_slice(&sn[8..]);
+                    pop.push(e);
+                }
+                emit_generate(out, &name, &pop, default_max_iter(pop.len()));
+                // the same with unrelated entries in between
+                let noisy = synth_population(&mut rng, "x.txt", 1, 0, 3);
+                let mut pop2 = noisy.clone();
+                pop2.extend_from_slice(&pop);
+                emit_generate(out, &name, &pop2, default_max_iter(pop2.len()));
+            }
+        }
+    }
+    eprintln!("names: {} self-hash names", self_hash);
+
     // ---- 7. populations grown by the real generator
     // (a) one name created over and over: 5..600 entries
     let big = tier.pick(330usize, 600usize);
